@@ -1199,3 +1199,30 @@ Lemma api_edit_local urlnorm st op i k :
 Proof.
   intros [(j & v & ->)|[(j & v & ->)|(j & v & ->)]] H; cbn [api_step fst]; apply upd_nth_other; exact H.
 Qed.
+
+Lemma api_run_last urlnorm ops : forall st op,
+  nth (length ops) (api_run urlnorm st (ops ++ [op])) OutNone
+  = snd (api_step urlnorm (api_state urlnorm st ops) op).
+Proof.
+  induction ops as [|o ops IH]; intros st op; cbn [app api_run length nth api_state fold_left].
+  - destruct (api_step urlnorm st op). reflexivity.
+  - destruct (api_step urlnorm st o) as [st' x] eqn:E. cbn [nth fst].
+    rewrite IH. unfold api_state. reflexivity.
+Qed.
+
+(** serialising is a function of the records the list holds when it is called *)
+Lemma api_serialise_current urlnorm ops st i :
+  nth (length ops) (api_run urlnorm st (ops ++ [ApiSerialise i])) OutNone
+  = OutBytes (to_bytes (nth i (api_state urlnorm st ops) [])).
+Proof. rewrite api_run_last. reflexivity. Qed.
+
+(** ... and parsing what a list serialises to gives back the records it holds NOW, whatever
+    was built, added, removed, edited or serialised before (well-formed records that fit) *)
+Lemma api_reparse_current urlnorm ops st i :
+  let l := nth i (api_state urlnorm st ops) [] in
+  forallb (wf_rec urlnorm) l = true -> fits31 l ->
+  nth (length ops) (api_run urlnorm st (ops ++ [ApiReparse i])) OutNone = OutParse (Ok l).
+Proof.
+  intros l W F. rewrite api_run_last. cbn [api_step snd]. fold l.
+  destruct (parse_serialise urlnorm l W F) as (b & -> & _ & ->). reflexivity.
+Qed.
